@@ -74,6 +74,7 @@ def cases(tier, seed):
         strs = _strings(CSV_CHARS, 3)
     else:
         strs = _strings(CSV_CHARS_THOROUGH, 3) + list(U.strings_upto(CSV_CHARS, 4, 4))
+    yield {"kind": "shared_buffer", "n": 1000 if quick else 10000, "seed": seed}
     for i, s in enumerate(strs):
         for fmt in FORMATS:
             yield {"kind": "csv", "fmt": fmt, "s": s, "i": i}
@@ -81,7 +82,6 @@ def cases(tier, seed):
         yield {"kind": "json", "a": JSON_VALUES[a], "b": JSON_VALUES[b]}
     for s in _strings(JSON_CHARS, 2 if quick else 3):
         yield {"kind": "json", "a": s, "b": {s: [s]}}
-    yield {"kind": "shared_buffer", "n": 1000 if quick else 10000, "seed": seed}
     max_sub = 3 if quick else 4
     for cls in REC_CLASSES:
         for fmt in ("csv", "tsv", "json"):
@@ -186,6 +186,13 @@ def _check_csv_roundtrip(r, fields, delim):
 
 def _run_csv(case):
     r, fields, delim = _csv_record(case["fmt"], case["s"], case["i"])
+    # a first save of another record of the same class: the writer buffer is shared and must be clean afterwards
+    # (makes the case independent of what ran before it in the same process, so that a replay sees the same)
+    prime, pfields, _ = _csv_record(case["fmt"], "prime", 1)
+    bad = _check_csv_roundtrip(prime, pfields, delim)
+    if bad:
+        bad["scenario"] += "@first-save"
+        return bad
     bad = _check_csv_roundtrip(r, fields, delim)
     if bad:
         return bad
